@@ -266,6 +266,9 @@ std::string classify(const char *msg) {
     size_t e = m.rfind("': ");
     if (e != std::string::npos && e >= F.size()) return "f" + hex(m.substr(F.size(), e - F.size()));
   }
+  static const std::string N = "Option files nested too deeply (recursive inclusion?): '";
+  if (m.compare(0, N.size(), N) == 0 && m.size() > N.size() && m.back() == '\'')
+    return "n" + hex(m.substr(N.size(), m.size() - N.size() - 1));
   return "o" + hex(m);
 }
 
